@@ -36,6 +36,13 @@ func c11framings() []c11fr {
 		{"Line", channel.Line, 's', '\n'},
 		{"Split(NUL)", channel.Split(0), 's', 0},
 		{"Split(|)", channel.Split('|'), 's', '|'},
+		// split bytes that are not ASCII: as a code point each is spelt with two
+		// bytes in UTF-8 (0x80 -> C2 80, which contains the split byte; 0xC3 ->
+		// C3 83, whose lead byte is the split byte; 0xFF -> C3 BF, which does
+		// not contain it), so byte and rune/string handling differ for them
+		{"Split(0x80)", channel.Split(0x80), 's', 0x80},
+		{"Split(0xC3)", channel.Split(0xC3), 's', 0xC3},
+		{"Split(0xFF)", channel.Split(0xFF), 's', 0xFF},
 		{"StrictHeader(application/json)", channel.StrictHeader("application/json"), 'h', 0},
 		{"StrictHeader()", channel.StrictHeader(""), 'h', 0},
 		{"Header(text/x)", channel.Header("text/x"), 'h', 0},
@@ -141,6 +148,13 @@ func (a *c11acct) flush(c *vt.Ctx) {
 func c11smallRecs(fr c11fr) [][]byte {
 	switch fr.kind {
 	case 's':
+		if fr.split >= 0x80 {
+			// the two bytes that spell U+00<split> in UTF-8 (where one of them is
+			// the split byte itself, its neighbour), alone and together, and the
+			// byte values next to the split byte
+			sp := c11splitSpelling(fr.split)
+			return [][]byte{{}, {sp[0]}, {sp[0], sp[1]}, {fr.split - 1, fr.split ^ 0x80, sp[1]}}
+		}
 		pool := []byte{}
 		for _, b := range []byte{'\n', 0, '|', '\r', 'a', 0xff} {
 			if b != fr.split {
@@ -169,6 +183,18 @@ func c11legal(fr c11fr, n int, rng *rand.Rand) []byte {
 			}
 			b[i] = v
 		}
+		if fr.split >= 0x80 {
+			// text-like content: the UTF-8 spelling of the code point that has
+			// the split byte's number, and the bytes around the split byte
+			sp := c11splitSpelling(fr.split)
+			for k := 0; k < 3 && n >= 2; k++ {
+				copy(b[rng.IntN(n-1):], sp)
+			}
+			if n > 0 {
+				b[n-1] = sp[rng.IntN(2)]
+				b[0] = []byte{sp[0], sp[1], fr.split - 1, fr.split ^ 0x80}[rng.IntN(4)]
+			}
+		}
 		return b
 	}
 	b := make([]byte, n)
@@ -182,6 +208,33 @@ func c11legal(fr c11fr, n int, rng *rand.Rand) []byte {
 		}
 	}
 	return b
+}
+
+// c11utf8 returns the UTF-8 encoding of the code point U+00<b> (one byte for
+// b < 0x80, else two: C2 b for b < 0xC0, C3 b-0x40 above), spelt out here
+// rather than through a string conversion.
+func c11utf8(b byte) []byte {
+	switch {
+	case b < 0x80:
+		return []byte{b}
+	case b < 0xC0:
+		return []byte{0xC2, b}
+	}
+	return []byte{0xC3, b - 0x40}
+}
+
+// c11splitSpelling returns, for a split byte >= 0x80, two bytes legal for
+// Split(b) that are as close as possible to the UTF-8 encoding of U+00<b>:
+// the encoding itself where it does not contain b (0xC0..0xFF except 0xC3),
+// otherwise with the offending byte replaced by its neighbour b^1.
+func c11splitSpelling(b byte) []byte {
+	sp := c11utf8(b)
+	for i := range sp {
+		if sp[i] == b {
+			sp[i] = b ^ 1
+		}
+	}
+	return sp
 }
 
 // c11json returns a self-delimiting JSON value (object, array or string)
@@ -313,12 +366,14 @@ func init() {
 	vt.Register(&vt.Check{
 		Prop:  "C11",
 		Level: "exploration",
-		Rule: "record sequences sent pipelined through the real Send of Line, Split(NUL), Split(|), StrictHeader(mime), StrictHeader(\"\"), Header(mime), LSP, RawJSON (and Direct), " +
+		Rule: "record sequences sent pipelined through the real Send of Line, Split(NUL), Split(|), Split(0x80), Split(0xC3), Split(0xFF) (non-ASCII split bytes: records hold the bytes that spell U+00<split> in UTF-8, alone and together, and the byte values next to the split byte), StrictHeader(mime), StrictHeader(\"\"), Header(mime), LSP, RawJSON (and Direct), " +
 			"then decoded by a fresh channel through a chunk-controlled reader, each with EOF on a separate read and EOF together with the last bytes: " +
 			"(small) all sequences over a 4-8 record alphabet whose wire image is <= B bytes (B = 11 quick, 13 thorough; split and RawJSON framings) x every cut set; " +
 			"(hdr) all sequences of <= 2 (quick) / 3 (thorough) payloads over 5 framing-like payloads x {no cut, every single cut, every pair of cuts, 1- and 2-byte reads}; " +
 			"(edge) sizes 0..72 growing and shrinking by one byte and around 4096/8192/16388; (large) sizes {0,1,2,4095,4096,4097,65536,1MiB+1,3MiB,10,5MiB,1} in 4 orders plus a buffer-threshold sequence (600000, 300000, 299999, ..., 4MiB, 4MiB+1) x {whole, 1-byte reads (<=64KiB prefix sizes only in quick), cuts at every record/header boundary +-1, seeded random cuts}; " +
-			"(rand) seeded random sequences and cuts; (refuse) records containing the split byte. " +
+			"(rand) seeded random sequences and cuts; (refuse) records containing the split byte (for the non-ASCII split bytes also next to / inside the UTF-8 spelling of U+00<split>); " +
+			"(splitbyte) Split(b) for every byte value b = 0x00..0xFF: legal records {all 255 other byte values, b+1 b-1 b^0x80, empty, the UTF-8 encoding of U+00<b> alone / as prefix / as suffix / inside text / repeated across the read buffer where it does not contain b (0xC0..0xFF except 0xC3), each byte of that encoding alone, 4097 and <300 random legal bytes} " +
+			"interleaved on one sending channel with unrepresentable records {b at the start, middle, end; b next to the UTF-8 spelling; C2 b, C3 b, b 80, b BF; the encoding itself where it contains b; 4096/4097 bytes with one b}, each of which must be refused with nothing written, x {whole, 1-byte, 3-byte reads, record boundaries +-1, 2 random cut sets}. " +
 			"evaluations = stream decodes (one per stream x cut set x EOF mode). distinct_nontrivial = distinct (framing, record sequence, chunking family, EOF mode) with >= 2 records " +
 			"or >= 1 interior cut; the number of individual cut sets is the counter cut_sets",
 		Assumptions: []string{
@@ -326,10 +381,11 @@ func init() {
 			"RawJSON records are JSON objects, arrays and strings without surrounding whitespace, and the empty record (numbers and literals are not self-delimiting; null is the wire form of the empty record)",
 			"the io.Reader returns at least one byte or an error per Read (no (0, nil) reads)",
 			"Direct passes slices by reference (documented); checked for order and EOF only",
+			"the split byte is a byte value, not a character: a record is representable by Split(b) exactly when it does not contain the byte b; the UTF-8 encoding of the code point U+00<b> is ordinary payload unless it contains that byte",
 		},
 		Require: map[string]int64{
 			"records_received": 100000, "stream_decodes": 50000, "cut_sets": 50000,
-			"refusals_checked": 30, "records_ge_1MiB": 20, "eof_with_last_bytes": 1000,
+			"refusals_checked": 30, "split_bytes_covered": 256, "split_bytes_non_ascii": 128, "refusals_non_ascii_split": 1000, "legal_records_with_utf8_of_split": 300, "records_ge_1MiB": 20, "eof_with_last_bytes": 1000,
 		},
 		Cases: c11cases,
 	})
@@ -469,6 +525,15 @@ func c11cases(e vt.Env, yield func(vt.Case) bool) {
 		fr := fr
 		id := "refuse/" + fr.name
 		if !yield(vt.Case{ID: id, Run: func(c *vt.Ctx) { c11refuse(c, e, fr, id) }}) {
+			return
+		}
+	}
+
+	// (splitbyte) every byte value as the delimiter
+	for b := 0; b < 256; b++ {
+		b := byte(b)
+		id := fmt.Sprintf("splitbyte/0x%02X", b)
+		if !yield(vt.Case{ID: id, Run: func(c *vt.Ctx) { c11splitByte(c, e, b, id) }}) {
 			return
 		}
 	}
@@ -734,6 +799,11 @@ func c11refuse(c *vt.Ctx, e vt.Env, fr c11fr, id string) {
 	b := fr.split
 	var bad [][]byte
 	bad = append(bad, []byte{b}, []byte{b, b}, []byte{'a', b}, []byte{b, 'a'}, []byte{'a', b, 'c'})
+	if b >= 0x80 {
+		// the raw byte among the bytes that spell U+00<split> in UTF-8
+		sp := c11splitSpelling(b)
+		bad = append(bad, []byte{sp[0], sp[1], b}, []byte{b, sp[0], sp[1]}, []byte{sp[0], b, sp[1]}, []byte{0xC2, b}, []byte{0xC3, b}, []byte{b, 0xBF})
+	}
 	for _, n := range []int{100, 4095, 4096, 4097, 70000} {
 		for _, at := range []int{0, n / 2, n - 1} {
 			r := c11legal(fr, n, rng)
